@@ -174,7 +174,7 @@ var specBig = pbt.Register(&pbt.Spec[Case]{
 		"1, 2, 3, 5, 6, 7 in turn; the same on the powers 6, 9, 12, 13 (16 for u8 and unit) " +
 		"for the element types u8 (1 byte), f64x2 (16), slice (24, pointers), padded (96), any, unit (zero-size); " + rule,
 	Enum: func(shard, shards int, tier string, yield func(Case) bool) { bigCases(shard, shards, tier, yield) },
-	Run:  Run,
+	Run:  Run, Replicas: 4, ReplicaEvery: 16,
 })
 
 func TestC08Big(t *testing.T) { pbt.Check(t, specBig) }
